@@ -194,9 +194,9 @@ SPEC = {
                  'apply_local_hamiltonian', 'apply_local_bond_contraction', 'right-blocks.dense', 'projection.one-site', 'projection.two-site',
                  'projection.zero-site', 'heff.hermitian[one-site]', 'heff.hermitian[zero-site]'],
     'workloads': [
-        Workload('scalars', scalars_case, quick=500, thorough=16000),
-        Workload('steps', steps_case, quick=300, thorough=6000),
-        Workload('projection', projection_case, quick=250, thorough=8000),
+        Workload('scalars', scalars_case, quick=500, thorough=64000),
+        Workload('steps', steps_case, quick=300, thorough=36000),
+        Workload('projection', projection_case, quick=250, thorough=24000),
     ],
     'shards': {'quick': 1, 'thorough': 16},
     'assumptions': ['dense contraction in pvm/refs.py and numpy.einsum'],
